@@ -31,13 +31,13 @@ def one(sid):
     print(sid,'caught' if obls else 'NOT CAUGHT',flush=True)
     return (sid,prop,m.group(0) if m else 'no summary',obls)
 sids=[s for s in sorted(os.listdir('/verif/seeded')) if not s.startswith('_') and os.path.exists('/verif/seeded/'+s+'/patch.diff')]
-# seed_table.py Cxx [Cyy ...]: re-run only the seeds of these properties and merge the rows into the existing table
+# seed_table.py Cxx|<seed id> ...: re-run only the seeds of these properties / these seeds and merge the rows into the existing table
 ONLY=set(sys.argv[1:])
 old_rows={}
 if ONLY:
     old_rows={r['seed']:(r['seed'],r['property'],r['summary'],r['failed_obligations']) for r in json.load(open('/verif/seeded/RESULTS.json'))}
     sids_all=sids
-    sids=[s for s in sids if json.load(open('/verif/seeded/'+s+'/meta.json'))['property'] in ONLY]
+    sids=[s for s in sids if s in ONLY or json.load(open('/verif/seeded/'+s+'/meta.json'))['property'] in ONLY]
 with ThreadPoolExecutor(max_workers=3) as ex:
     rows=list(ex.map(one,sids))
 shutil.rmtree(SNAP,ignore_errors=True)
